@@ -21,9 +21,11 @@ FAMILY = {
     # three hits on a three-byte input, no nesting below
     "t3": dict(L0=3, L1=1, N0=3, N1=0, Ks="{1, 2}", Types='{"", "x"}',
                Kinds='{"slice", "flip", "leaf", "kid"}', Types1='{"x"}', Kinds1='{"leaf"}'),
+    # three hits, two value kinds (small enough to export for the quick replays)
+    "t3s": dict(L0=3, L1=1, N0=3, N1=0, Ks="{1, 2}", Types='{"", "x"}', Kinds='{"slice", "leaf"}', Types1='{"x"}', Kinds1='{"leaf"}'),
     # four-byte input (ten spans), two hits
-    "t4": dict(L0=4, L1=2, N0=2, N1=1, Ks="{-1, 1, 2, 4}", Types='{"", "x"}',
-               Kinds='{"slice", "flip", "target", "leaf", "self", "kid"}', Types1='{"", "x"}', Kinds1='{"slice", "leaf", "self", "target"}'),
+    "t4": dict(L0=4, L1=2, N0=2, N1=1, Ks="<- K_m1_2_4", Types='{"", "x"}',
+               Kinds='{"slice", "target", "leaf", "self"}', Types1='{"x"}', Kinds1='{"slice", "leaf"}'),
     # small family in which the defect of the pinned commit shows (used for non-vacuity runs only)
     "nv": dict(L0=3, L1=1, N0=3, N1=0, Ks="{2}", Types='{"x"}', Kinds='{"slice", "leaf"}', Types1='{"x"}', Kinds1='{"leaf"}'),
     # two levels that both decode again
@@ -39,7 +41,7 @@ def family_cfg(name: str, variant: str = "fixed", invariants=None, liveness=True
     c = FAMILY[name]
     lines = ["CONSTANTS"]
     for k, v in c.items():
-        lines.append(f" {k} = {v}")
+        lines.append(f" {k} {v}" if str(v).startswith("<-") else f" {k} = {v}")
     lines += [f" Slack = {slack}", f' Variant = "{variant}"', " WK <- GenK", " WTexts <- GenTexts", " WHits <- GenHits", " NWorlds <- GenN"]
     if gen:
         lines += ["INIT Init", "NEXT Next"]
@@ -88,12 +90,25 @@ def oob_demo(res: Result) -> None:
 
 
 def export_family(name: str) -> dict:
+    """The family as TLC generates it (specification-only: cached under .cache by the digest of the modules + constants)."""
+    cfg = family_cfg(name, gen=True)
+    key = tlc._spec_digest("ScanGen", cfg, ["export"])
+    cached = os.path.join(tlc.CACHE, key + ".family.json")
+    if os.path.exists(cached):
+        with open(cached) as f:
+            return json.load(f)
     out = os.path.join(scratch("gen"), "family.json")
-    r = tlc.run("ScanGen", family_cfg(name, gen=True), env={"OUT_FILE": out}, workers=1, timeout=1200)
+    r = tlc.run("ScanGen", cfg, env={"OUT_FILE": out}, workers=1, timeout=1200)
     if not os.path.exists(out):
         raise MachineryError("ScanGen produced no family:\n" + r.out[-2000:])
     with open(out) as f:
-        return json.load(f)
+        fam = json.load(f)
+    os.makedirs(tlc.CACHE, exist_ok=True)
+    tmp = cached + f".{os.getpid()}.tmp"
+    with open(tmp, "w") as f:
+        json.dump(fam, f)
+    os.replace(tmp, cached)
+    return fam
 
 
 def world_of(fam: dict, w: int) -> tuple[int, list[bytes], dict[int, list]]:
